@@ -24,8 +24,10 @@ Section C06.
     w_pupil_z : T;            (* paraxial.XPL() + positions[-1] *)
     w_field_type : string;
     w_Hx : T; w_Hy : T;       (* the field *)
-    w_max_x : T; w_max_y : T; (* fields.max_x_field / max_y_field *)
+    w_max_field : T;          (* fields.max_field *)
+    w_vx : T; w_vy : T;       (* fields.get_vig_factor(Hx, Hy) *)
     w_EPD : T;                (* paraxial.EPD() *)
+    w_n_obj : T; w_n_img : T; (* object_surface.material_post.n(w), image_surface.material_pre.n(w) *)
     w_wavelength : T
   }.
 
@@ -35,14 +37,15 @@ Section C06.
     match k_c06_ref_sphere O (w_pupil_z e) (c_x chief) 1%Z (c_y chief) (c_z chief) with
     | None => None
     | Some (xc, yc, zc, R) =>
-        let opd_ref := k_c06_path_length O xc yc zc R (c_opd chief) (c_x chief) (c_y chief) (c_z chief)
+        let opd_ref := k_c06_path_length O xc yc zc R (c_opd chief) (w_n_img e) (c_x chief) (c_y chief) (c_z chief)
                                          (c_L chief) (c_M chief) (c_N chief) in
         let opd_ref := k_c06_correct_tilt_xy O opd_ref (ofZ 0) (ofZ 0) (w_field_type e) (w_Hx e) (w_Hy e)
-                                             (w_max_x e) (w_max_y e) (w_EPD e) in
+                                             (w_max_field e) (w_vx e) (w_vy e) (w_EPD e) (w_n_obj e) in
         Some (map (fun '(px, py, r) =>
-                     k_c06_field_data O (w_wavelength e) opd_ref xc yc zc R (c_i r) (c_opd r)
+                     k_c06_field_data O (w_wavelength e) opd_ref xc yc zc R (c_i r) (c_opd r) (w_n_img e)
                                       (c_x r) (c_y r) (c_z r) (c_L r) (c_M r) (c_N r)
-                                      (w_field_type e) (w_Hx e) (w_Hy e) (w_max_x e) (w_max_y e) px py (w_EPD e))
+                                      (w_field_type e) (w_Hx e) (w_Hy e) (w_max_field e) (w_vx e) (w_vy e)
+                                      px py (w_EPD e) (w_n_obj e))
                   rays)
     end.
 
